@@ -266,6 +266,7 @@ def field_classes(prog, ci):
                 elif isinstance(n, (ast.AugAssign, ast.AnnAssign)) and isinstance(n.target, ast.Attribute) and dotted(n.target.value) == "self":
                     vals.setdefault(n.target.attr, []).append((m, None))
     out = {}
+    _FIELD_CACHE[key] = out          # (also guards against recursion through constructor arguments)
     for f, vs in vals.items():
         classes = []
         ok = True
@@ -273,15 +274,37 @@ def field_classes(prog, ci):
             if isinstance(v, ast.Constant) and v.value is None:
                 continue
             c = prog.resolve_class(m.module, v.func) if isinstance(v, ast.Call) and isinstance(v.func, (ast.Name, ast.Attribute)) else None
-            if c is None:
+            cs = [c] if c is not None else []
+            if not cs and isinstance(v, ast.Name) and m.name == "__init__" and v.id in m.params[1:]:
+                # self.f = parameter of the constructor: the classes of what the class is constructed with
+                cs = _ctor_arg_classes(prog, ci, m, v.id)
+            if not cs:
                 ok = False
                 break
-            if c not in classes:
-                classes.append(c)
+            for c in cs:
+                if c not in classes:
+                    classes.append(c)
         if ok and len(classes) == 1:
             out[f] = classes
-    _FIELD_CACHE[key] = out
     return out
+
+
+def _ctor_arg_classes(prog, ci, init, pname):
+    """classes of the argument bound to parameter pname at every place the package constructs ci ([] unless all are known)"""
+    pos = init.params.index(pname) - 1
+    found = []
+    for g in prog.functions.values():
+        for c in walk_body(g.node):
+            if isinstance(c, ast.Call) and isinstance(c.func, (ast.Name, ast.Attribute)) and prog.resolve_class(g.module, c.func) is ci:
+                a = c.args[pos] if len(c.args) > pos else next((k.value for k in c.keywords if k.arg == pname), None)
+                d = dotted(a) if a is not None else None
+                cs = _receiver_classes(prog, g, d, {}) if d else []
+                if not cs or cs == EXTERNAL:
+                    return []
+                for k in cs:
+                    if k not in found:
+                        found.append(k)
+    return found
 
 
 def inferred_local_classes(prog, fi):
